@@ -66,31 +66,58 @@ def read_place(env, p):
                 v = v[e["offset"]]
             else:
                 return UNKNOWN
+        elif k == "index":
+            iv = env.get(e["local"], UNKNOWN)
+            if isinstance(v, (list, tuple)) and isinstance(iv, int) and not isinstance(iv, bool) and iv < len(v):
+                v = v[iv]
+            else:
+                return UNKNOWN
         else:
             return UNKNOWN
     return v
 
 
 def write_place(env, p, val):
-    if not p["proj"]:
+    """Write through field / constant-or-local index projections into nested lists / Enum fields."""
+    steps = []
+    for e in p["proj"]:
+        k = e["k"]
+        if k in ("deref", "downcast"):
+            continue
+        if k == "field":
+            steps.append(e["i"])
+        elif k == "index":
+            iv = env.get(e["local"], UNKNOWN)
+            if not isinstance(iv, int) or isinstance(iv, bool):
+                env[p["local"]] = UNKNOWN
+                return
+            steps.append(iv)
+        elif k == "const_index":
+            steps.append(e["offset"])
+        else:
+            env[p["local"]] = UNKNOWN
+            return
+    if not steps:
         env[p["local"]] = val
         return
-    # field write into a tuple/enum local: best effort
-    nd = [e for e in p["proj"] if e["k"] not in ("deref", "downcast")]
     base = env.get(p["local"], UNKNOWN)
-    if len(nd) == 1 and nd[0]["k"] == "field":
-        i = nd[0]["i"]
-        if isinstance(base, list):
-            while len(base) <= i:
-                base.append(UNKNOWN)
-            base[i] = val
+    if base is UNKNOWN:
+        base = []
+        env[p["local"]] = base
+    cur = base
+    for n, i in enumerate(steps):
+        cont = cur.fields if isinstance(cur, Enum) else cur
+        if not isinstance(cont, list):
+            env[p["local"]] = UNKNOWN
             return
-        if base is UNKNOWN:
-            lst = [UNKNOWN] * (i + 1)
-            lst[i] = val
-            env[p["local"]] = lst
-            return
-    env[p["local"]] = UNKNOWN
+        while len(cont) <= i:
+            cont.append(UNKNOWN)
+        if n == len(steps) - 1:
+            cont[i] = val
+        else:
+            if cont[i] is UNKNOWN:
+                cont[i] = []
+            cur = cont[i]
 
 
 def operand(env, o):
@@ -196,19 +223,19 @@ def rvalue(env, rv):
     return UNKNOWN
 
 
-def run_fragment(f, start, env, stops=(), oracle=None, max_blocks=400, on_block=None, stuck_ok=False):
+def run_fragment(f, start, env, stops=(), oracle=None, max_blocks=400, on_block=None, stuck_ok=False, max_visits=1):
     """Walk from `start`; returns ('stop', block, env) | ('return', block, env) | ('diverge', block, env)
     | ('unreachable', block, env)."""
-    visited = set()
+    visited = {}
     b = start
     stops = set(stops)
     n = 0
     while True:
         if b in stops:
             return ("stop", b, env)
-        if b in visited:
+        if visited.get(b, 0) >= max_visits:
             raise Loop("block %d revisited" % b)
-        visited.add(b)
+        visited[b] = visited.get(b, 0) + 1
         n += 1
         if n > max_blocks:
             raise Loop("fragment too long")
